@@ -83,7 +83,13 @@ GROUPS.append(dict(name='parse_pad_n1', tier='thorough', cls='P', tu='C06_parse_
 GROUPS += [
  dict(name='has_lbrr', cls='F', tu='C06_has_lbrr.c', entry='h_has_lbrr', dfcc=False, unwind=6, timeout=900, canary='real', expect_canaries=2,
       functions=['opus_packet_has_lbrr', 'opus_packet_get_mode', 'opus_packet_get_samples_per_frame', 'opus_packet_get_nb_channels'],
-      what='opus_packet_has_lbrr equals the OR of the LBRR flags read with the real range decoder as silk_Decode does; every TOC (code 0), frame of 1-3 symbolic bytes'),
+      what='opus_packet_has_lbrr equals the OR of the LBRR flags read with the real range decoder as silk_Decode does; every TOC (code 0), frame of 0-3 symbolic bytes (a zero-length frame carries no LBRR)'),
+ dict(name='has_lbrr_safe', cls='B', tu='C06_has_lbrr.c', entry='h_has_lbrr_safe', dfcc=False, unwind=6, defines=['-DVERIF_LBRR_MAXCOUNT=3'], timeout=900, canary='real', expect_canaries=1,
+      functions=['opus_packet_has_lbrr', 'opus_packet_parse_impl'], bounds='packets of 0..5 symbolic bytes in an exact-size object, every framing code, code 3 with <= 3 frames',
+      what='opus_packet_has_lbrr reads only the packet (C01 clause on the inspection functions) and returns 0, 1 or a documented error'),
+ dict(name='has_lbrr_safe_all', tier='thorough', cls='B', tu='C06_has_lbrr.c', entry='h_has_lbrr_safe', dfcc=False, unwind=50, timeout=2400, canary='real', expect_canaries=1,
+      functions=['opus_packet_has_lbrr', 'opus_packet_parse_impl'], bounds='packets of 0..5 symbolic bytes in an exact-size object, every framing code',
+      what='opus_packet_has_lbrr reads only the packet (C01 clause on the inspection functions) and returns 0, 1 or a documented error'),
  dict(name='helpers_agree', cls='F', tu='C06_has_lbrr.c', entry='h_helpers_agree', dfcc=False, unwind=50, timeout=900, canary='real',
       functions=['opus_packet_get_nb_frames', 'opus_packet_get_nb_samples', 'opus_packet_get_samples_per_frame', 'opus_packet_get_nb_channels'],
       what='frame count / total samples / samples per frame / channels helpers agree with the parser and the RFC table on every packet of <= 3 bytes'),
